@@ -2,9 +2,13 @@ package harness
 
 import (
 	"fmt"
+	"os"
+	"path/filepath"
 	"testing"
 
+	kv "github.com/XiXi-2024/xixi-kv"
 	"pgregory.net/rapid"
+
 	"verifharness/kvh"
 )
 
@@ -28,6 +32,7 @@ func TestC20(t *testing.T) {
 		"backups go into fresh directories only",
 		"debug.SetPanicOnFault(true) is set on the goroutine that calls the engine")
 	defer finishProperty(st)
+	c20RelativeDirProbe(t, st)
 	t.Run("histories", func(t *testing.T) {
 		checkCases(t, st, func(t *rapid.T) {
 			runHistoryCase(t, "C20", c20Profile, func(r *kvh.Runner) bool {
@@ -40,4 +45,130 @@ func TestC20(t *testing.T) {
 		defer restore()
 		snapConcurrent(t, st, "C20", []string{"backup"}, 35)
 	})
+}
+
+// c20RelativeDirProbe: the directory is named relative to the working directory of the process (the daemon habit of
+// changing into the state directory and opening "."; "./db", "../db" from a sibling). The working directory belongs to
+// the whole process, so this is a fixed family of schedules run once, before the generated histories, not an option of
+// every history. The backup - taken into an absolute or a relative destination - is opened by its absolute path and
+// must hold the mapping the source had when Backup was called; the source, reopened by its absolute path, the final one.
+func c20RelativeDirProbe(t fataler, st *kvh.Stats) {
+	e := kvh.GetEnv()
+	if !e.Mine(0) {
+		return
+	}
+	cwd0, err := os.Getwd()
+	if err != nil {
+		return
+	}
+	defer func() { _ = os.Chdir(cwd0) }()
+	cs := map[string]string{"property": "C20", "kind": "probe-c20-relative-dir", "note": "fixed schedules, see c20RelativeDirProbe"}
+	kvh.SetInFlight(&kvh.InFlight{Property: "C20", Case: func() any { return cs }})
+	defer kvh.SetInFlight(nil)
+	for round, sp := range []struct{ cwd, dir, dst string }{
+		{"db", ".", ""}, {"db", "./", "../bk"}, {"", "db", ""}, {"", "./db", "bk"}, {"side", "../db", "../bk"}, {"", "db/", "./bk/"}, {"db", ".", "../bk/"},
+	} {
+		base := e.NewDir("c20rel")
+		fail := func() *kvh.Fail {
+			defer func() {
+				_ = os.Chdir(cwd0)
+				gIO.Forget(base)
+				_ = os.RemoveAll(base)
+			}()
+			for _, d := range []string{"db", "side"} {
+				_ = os.MkdirAll(filepath.Join(base, d), 0o755)
+			}
+			if err := os.Chdir(filepath.Join(base, sp.cwd)); err != nil {
+				return nil
+			}
+			opt := kvh.DefaultOpt()
+			opt.FileSize = []int64{600, 4096, 1 << 20}[round%3]
+			opt.Index = int8(1 + round%3)
+			what := fmt.Sprintf("working directory <base>/%s, DirPath %q, Backup(%q)", sp.cwd, sp.dir, sp.dst)
+			db, err := kv.Open(opt.KV(sp.dir))
+			if err != nil {
+				return &kvh.Fail{Sig: "open-error", Msg: what + ": " + err.Error()}
+			}
+			closed := false
+			defer func() {
+				if !closed {
+					_ = db.Close()
+				}
+			}()
+			model := map[string]string{}
+			write := func(from, to int, tag string) *kvh.Fail {
+				for i := from; i < to; i++ {
+					k := fmt.Sprintf("key-%04d", i%220)
+					if i%7 == 3 {
+						if err := db.Delete([]byte(k)); err != nil {
+							return &kvh.Fail{Sig: "delete-error", Msg: what + ": " + err.Error()}
+						}
+						delete(model, k)
+						continue
+					}
+					v := fmt.Sprintf("%s-%04d-%s", tag, i, kvh.ValueDigest(kvh.GenValue(uint64(i), 20+(i*11)%70)))
+					if err := db.Put([]byte(k), []byte(v)); err != nil {
+						return &kvh.Fail{Sig: "put-error", Msg: what + ": " + err.Error()}
+					}
+					model[k] = v
+				}
+				return nil
+			}
+			if f := write(0, 300, "before"); f != nil {
+				return f
+			}
+			atBackup := map[string]string{}
+			for k, v := range model {
+				atBackup[k] = v
+			}
+			dst := sp.dst
+			if dst == "" {
+				dst = filepath.Join(base, "bk")
+			}
+			if err := db.Backup(dst); err != nil {
+				return &kvh.Fail{Sig: "backup-error", Msg: what + ": " + err.Error()}
+			}
+			if f := write(300, 420, "after"); f != nil {
+				return f
+			}
+			if err := db.Close(); err != nil {
+				return &kvh.Fail{Sig: "close-error", Msg: what + ": " + err.Error()}
+			}
+			closed = true
+			_ = os.Chdir(cwd0)
+			for _, side := range []struct {
+				dir, name string
+				want      map[string]string
+			}{{filepath.Join(base, "bk"), "the backup", atBackup}, {filepath.Join(base, "db"), "the source, reopened by its absolute path", model}} {
+				rdb, err := kv.Open(opt.KV(side.dir))
+				if err != nil {
+					return &kvh.Fail{Sig: "backup-open-error", Msg: fmt.Sprintf("%s: opening %s: %v", what, side.name, err)}
+				}
+				n := rdb.Stat().KeyNum
+				var bad string
+				for k, v := range side.want {
+					if got, gerr := rdb.Get([]byte(k)); gerr != nil || string(got) != v {
+						bad = fmt.Sprintf("Get(%s) = (%q, %v), want %q", k, got, gerr, v)
+						break
+					}
+				}
+				_ = rdb.Close()
+				if bad != "" || n != len(side.want) {
+					return &kvh.Fail{Sig: "backup-differs-from-source", Msg: fmt.Sprintf("%s: %s holds %d keys, want %d; %s", what, side.name, n, len(side.want), bad)}
+				}
+			}
+			return nil
+		}()
+		st.Eval(1)
+		st.Label("directory-named-relative-to-the-working-directory")
+		st.NonTrivial(kvh.Hash64([]byte(fmt.Sprintf("c20rel|%d", round))))
+		if fail != nil {
+			report(t, st, cs, fail)
+			return
+		}
+	}
+}
+
+func init() {
+	replayers["probe-c20-relative-dir"] = func(_ *kvh.Case, _ []byte) *kvh.Fail { return replayProbe(c20RelativeDirProbe, "C20") }
 }
